@@ -405,7 +405,10 @@ func init() {
 		Technique: "runtime monitor: shadow model of packet.Writer/Reader (expected octet string, first-error state) compared after every primitive operation, failure injected at every position",
 		Rule: "op sequences of length 0..200 over all eight write primitives with arbitrary arguments; an oversize fixed string (the only failing write) injected at a PRNG-chosen position and again later; the mirrored read sequence over the full image and over every truncation class; C-strings and byte runs up to 5000 octets (widths around 64, 256 and 4096); every value a read returned is compared again after later reads (a result must not change under the caller); " +
 			"distinct_nontrivial = distinct (side, length bucket, failure injected / truncated) classes",
-		Assumptions: []string{"a write primitive can only fail through WriteFixedLenString with a value longer than its width; a read fails when its value is not completely present"},
+		Assumptions: []string{
+			"a write primitive can only fail through WriteFixedLenString with a value longer than its width; a read fails when its value is not completely present",
+			"C-strings and fixed-width strings are NUL-free (a C-octet string cannot contain its own terminator); WriteBytes/WriteString arguments are arbitrary octets",
+		},
 		Stages: []*fw.Stage{
 			{Name: "writer", N: q(60000, 40000000), Run: c20Writer},
 			{Name: "reader", N: q(60000, 40000000), Run: c20Reader},
